@@ -198,8 +198,9 @@ def run(tier):
     rel = w.relfile()
     # ---------------- O6: a needed rebuild is not conditional on the other gate
     pub_blocks = {s["block"] for s in PUB}
-    r_noforce = w.reachable([0], removed_edges=set(force))
-    r_noneeds = w.reachable([0], removed_edges=set(needs))
+    needs_x, force_x = p.gate_edges_exclusive()
+    r_noforce = w.reachable([0], removed_edges=set(force_x))
+    r_noneeds = w.reachable([0], removed_edges=set(needs_x))
     rep.ob("O6.stale-output-is-rebuilt-without-force", w.path, bool(pub_blocks & r_noforce),
            "with force_build off the publication site is unreachable: an edited grammar is never rebuilt",
            key="O6:rebuild-needs-force", file=rel, line=w.line, fn=w.path)
